@@ -2,6 +2,7 @@
 From Coq Require Import List NArith Bool Lia Wf_nat.
 From NB Require Import Base.Json.
 From NB Require Import Base.PyStr.
+From NB Require Import Gen.TsFacts.
 From NB Require Import Ts.TsSplit.
 Import ListNotations.
 Local Open Scope N_scope.
@@ -22,9 +23,9 @@ Qed.
 
 (* On text whose only line separators are LF, CR and CRLF the JavaScript result is Python's, possibly followed by
    one empty string. *)
-Lemma ts_split_lines_py s :
+Lemma ts_split_lines_regex_py s :
   only_nl_cr s = true ->
-  exists t, ts_split_lines s = splitlines s ++ t /\ (t = [] \/ t = [[]]).
+  exists t, ts_split_lines_regex s = splitlines s ++ t /\ (t = [] \/ t = [[]]).
 Proof.
   remember (length s) as n eqn:Hn. revert s Hn.
   induction n as [n IH] using lt_wf_ind. intros s Hn Hs.
@@ -32,7 +33,7 @@ Proof.
   - exists [[]]. simpl. auto.
   - apply only_nl_cr_cons in Hs as [Hc Hrest].
     destruct (exotic_false_sep c Hc) as [Hsep Hls].
-    rewrite splitlines_cons. unfold splitlines_step. cbn [ts_split_lines].
+    rewrite splitlines_cons. unfold splitlines_step. cbn [ts_split_lines_regex].
     destruct (c =? 13) eqn:E13.
     + destruct rest as [|c' rest'].
       * exists [[]]. auto.
@@ -56,6 +57,26 @@ Proof.
         -- exists t. cbn [app]. auto.
 Qed.
 
+Lemma ts_split_lines_py s :
+  only_nl_cr s = true ->
+  exists t, ts_split_lines s = splitlines s ++ t /\ (t = [] \/ t = [[]]).
+Proof.
+  intros H. unfold ts_split_lines. destruct split_lines_is_py.
+  - unfold ts_split_lines_pysep. destruct (ends_with_break s).
+    + exists [[]]. auto.
+    + exists []. rewrite app_nil_r. auto.
+  - apply ts_split_lines_regex_py. exact H.
+Qed.
+
+(* in the repaired form no hypothesis on the text is needed *)
+Lemma ts_split_lines_pysep_py s :
+  exists t, ts_split_lines_pysep s = splitlines s ++ t /\ (t = [] \/ t = [[]]).
+Proof.
+  unfold ts_split_lines_pysep. destruct (ends_with_break s).
+  - exists [[]]. auto.
+  - exists []. rewrite app_nil_r. auto.
+Qed.
+
 Lemma drop_last_empty_app_nil l : Forall (fun x : pystr => x <> []) l -> drop_last_empty l = l.
 Proof.
   intros H. unfold drop_last_empty. destruct (rev l) as [|x r] eqn:E; [reflexivity|].
@@ -76,10 +97,19 @@ Proof.
   - apply drop_last_empty_snoc.
 Qed.
 
+Theorem splitlines_ts_agrees_if_py_boundaries :
+  split_lines_is_py = true -> forall s, drop_last_empty (ts_split_lines s) = splitlines s.
+Proof.
+  intros Hm s. unfold ts_split_lines. rewrite Hm.
+  destruct (ts_split_lines_pysep_py s) as [t [Ht [-> | ->]]]; rewrite Ht.
+  - rewrite app_nil_r. apply drop_last_empty_app_nil, splitlines_nonempty.
+  - apply drop_last_empty_snoc.
+Qed.
+
 Example splitlines_ts_agrees_nonvacuous :
   only_nl_cr [97; 13; 10; 98; 10; 13; 99] = true /\
   ts_split_lines [97; 13; 10; 98; 10; 13; 99] = [[97; 13; 10]; [98; 10]; [13]; [99]].
-Proof. split; reflexivity. Qed.
+Proof. split; vm_compute; reflexivity. Qed.
 
 (* The line tables differ on every separator Python knows and JavaScript does not treat the same way. *)
 Definition exotic_list : list N := [11; 12; 28; 29; 30; 133; 8232; 8233].
